@@ -1022,3 +1022,61 @@ Proof.
   - destruct (save_patch (patch_trim (m_conf m) p1) order f s) as [[s1 failed] ok1].
     destruct failed; inversion H; subst. destruct m; reflexivity.
 Qed.
+
+(* ---------- statements at the level of buildRuleList (used by props/C13.v) ---------- *)
+Theorem rules_by_key_exact_build rules rl k :
+  wf_rules rules -> build_rule_list rules = inr rl ->
+  StronglySorted rule_lt (get_rules_by_key rl k) /\
+  (forall y, In y (get_rules_by_key rl k) <-> In y rules /\ covers y k = true).
+Proof.
+  intros Hwf H. destruct (build_ok rules rl Hwf H) as (A & B & C).
+  exact (rules_by_key_exact_pf rules rl A B C k).
+Qed.
+
+Theorem apply_region_exact_build rules rl s e :
+  wf_rules rules -> build_rule_list rules = inr rl ->
+  match get_rules_for_apply_region rl s e with
+  | Some rs =>
+      rs = prepare_rules_for_apply (get_rules_by_key rl s) /\ get_rules_by_key rl s <> [] /\
+      check_apply_rules rs = None /\
+      ~ (exists k, boundary rules k /\ key_lt s k /\ (e = [] \/ key_lt k e))
+  | None =>
+      get_rules_by_key rl s = [] \/ (exists k, boundary rules k /\ key_lt s k /\ (e = [] \/ key_lt k e))
+  end.
+Proof.
+  intros Hwf H. destruct (build_ok rules rl Hwf H) as (A & B & C).
+  exact (apply_region_exact_pf rules rl A B C s e).
+Qed.
+
+Theorem split_keys_exact_build rules rl s e :
+  wf_rules rules -> build_rule_list rules = inr rl ->
+  StronglySorted key_lt (get_split_keys rl s e) /\
+  (forall k, In k (get_split_keys rl s e) <-> boundary rules k /\ key_lt s k /\ (e = [] \/ key_lt k e)).
+Proof.
+  intros Hwf H. destruct (build_ok rules rl Hwf H) as (A & B & C).
+  exact (split_keys_exact_pf rules rl A B C s e).
+Qed.
+
+Theorem rule_order_documented_pf a b :
+  rule_lt a b <->
+  (group_index a < group_index b)%Z \/ (group_index a = group_index b /\
+    (key_lt (r_gid a) (r_gid b) \/ (r_gid a = r_gid b /\
+      ((r_index a < r_index b)%Z \/ (r_index a = r_index b /\ key_lt (r_id a) (r_id b)))))).
+Proof.
+  unfold rule_lt, compare_rule, key_lt.
+  assert (L : forall c d, lexc c d = Lt <-> c = Lt \/ (c = Eq /\ d = Lt)).
+  { intros c d. destruct c; cbn; split; intros H; auto; try discriminate.
+    - destruct H as [H|[_ H]]; [discriminate|exact H].
+    - destruct H as [H|[H _]]; discriminate. }
+  assert (KE : forall x y, key_cmp x y = Eq <-> x = y).
+  { intros x y. split; [apply key_cmp_eq|intros ->; apply key_cmp_refl]. }
+  rewrite !L, !Z.compare_lt_iff, !Z.compare_eq_iff, !KE. tauto.
+Qed.
+
+Theorem covered_when_rule_starts_at_empty_key rules rl k y :
+  wf_rules rules -> build_rule_list rules = inr rl -> In y rules -> r_start y = [] ->
+  get_rules_by_key rl k <> [] /\ check_apply_rules (prepare_rules_for_apply (get_rules_by_key rl k)) = None.
+Proof.
+  intros Hwf H Hy Hs. apply (covered_above_first_boundary rules rl k Hwf H).
+  exists []. split; [exists y; split; [exact Hy|left; symmetry; exact Hs]|apply nil_least].
+Qed.
